@@ -94,8 +94,11 @@ def worker(ctx):
                     elif v == 3:
                         texts[fn] = rng.choice(["\n\n", "// header comment\n", "   \n\t\n"]) + texts[fn]
                         res.count("layout:lines_before_proto")
+            subdirs = {g.filename: g.subdir for g in files}
+            os.makedirs(os.path.join(d, "sub"), exist_ok=True)   # (`sub/../x.bitproto` spellings need the directory to exist)
             for fn, t in texts.items():
-                with open(os.path.join(d, fn), "w", newline="") as fh:
+                os.makedirs(os.path.join(d, subdirs.get(fn, "")), exist_ok=True)
+                with open(os.path.join(d, subdirs.get(fn, ""), fn), "w", newline="") as fh:
                     fh.write(t)
             with open(os.path.join(d, "okimport.bitproto"), "w") as fh:
                 fh.write("proto okimport\nmessage OkImported { bool a = 1 }\n")
